@@ -912,7 +912,15 @@ func (g *gen) globalStmt() {
 		// object behind a global pointer) are not connected to reads in other functions. Only whole-variable writes of
 		// globals and reads of string-valued parts remain.
 		switch c.name {
-		case "GP", "GS", "GM", "GA":
+		case "GS":
+			if w {
+				// only the whole-variable write remains
+				g.emit("GS = %s", g.wholeStruct())
+				g.feat("global-struct")
+				g.feat("global-struct-whole-write")
+				return
+			}
+		case "GP", "GM", "GA":
 			if w {
 				g.prog.Excluded++
 				w = false
@@ -964,7 +972,10 @@ func (g *gen) globalStmt() {
 		}
 		g.feat("global-struct-ptr")
 	case "GS":
-		if w {
+		if w && g.chance(40, "gswhole") {
+			g.emit("GS = %s", g.wholeStruct())
+			g.feat("global-struct-whole-write")
+		} else if w {
 			g.emit("GS.%s = %s", []string{"A", "B"}[g.intn(2, "gsf")], g.expr(TStr, 1))
 		} else {
 			g.newVar(TStr, "GS."+[]string{"A", "B"}[g.intn(2, "gsf")])
@@ -1049,4 +1060,12 @@ func (g *gen) goStmt() {
 	if g.chance(40, "yield") {
 		g.emit("yield()")
 	}
+}
+
+// wholeStruct returns a struct value for a whole-variable write of the global struct GS.
+func (g *gen) wholeStruct() string {
+	if v, ok := g.pickVar(TPS, "gsfrom"); ok && g.chance(50, "gsderef") {
+		return "*" + v.name
+	}
+	return g.structLit(1)
 }
